@@ -230,5 +230,5 @@ Example C06_tree_example :
             [VTok (mkTok "NUM" (txt "7") 6 2 2 2 3 7)]).
 Proof.
   split; [|vm_compute; reflexivity].
-  intros d' [<- | [<- | [<- | [<- | []]]]]; vm_compute; exact I.
+  intros d' [<- | [<- | [<- | [<- | []]]]]; vm_compute; first [exact I | reflexivity].
 Qed.
